@@ -165,6 +165,9 @@ class Gen:
                     dep = order[self.rng.randrange(i)][0]
                     if dep not in t["deps"]:
                         t["deps"].append(dep)
+                        # the same test named twice (a path and a predicate that both designate it): one dependency, listed twice
+                        if self.rng.random() < self.p.get("p_dup_dep", 0.12):
+                            t["deps"].append(dep)
                     # ... and a test of ANOTHER suite that bears the same name as that dependency (dependencies are paths, not names)
                     twins = [order[j][0] for j in range(i) if order[j][0] != dep and order[j][0].rsplit(".", 1)[-1] == dep.rsplit(".", 1)[-1]]
                     if twins and self.rng.random() < 0.6:
